@@ -34,6 +34,8 @@ func main() {
 			fmt.Fprintln(os.Stderr, "SELF-CHECK FAILED:", err)
 			os.Exit(2)
 		}
+	case "dbgrace":
+		litmus.DebugRace()
 	case "worker":
 		conc.WorkerMain()
 	case "enumcase":
